@@ -189,6 +189,7 @@ def run_case(spec):
         d = ds.d
         ncls = len(ds.sizes)
         num_eig = min(ncls - 1, d)
+        amb_lda, worst_lda = 0, 0.0
         for name, basis_opt, nbs in (('SCML', 'triplet_diffs', (d, 2 * d + 1, 3 * d, 5 * d)),
                                      ('SCML_Supervised', 'triplet_diffs', (d, 2 * d + 1, 4 * d)),
                                      ('SCML_Supervised', 'lda', sorted({2, d + 1, 2 * d + 2, 3 * d + 1, 2 * num_eig * 3,
@@ -213,8 +214,22 @@ def run_case(spec):
                     if basis.shape != (nb, d) or np.abs(norms - 1).max() > 1e-9:
                         viol.append(V(name + '.fit', 'generated_basis', 'basis=%s, n_basis=%d: generated basis has shape %s and row norms in [%.6g, %.6g]'
                                       % (basis_opt, nb, basis.shape, norms.min(), norms.max()), [basis_opt, 'n_basis=%d' % nb]))
+                    if basis_opt == 'lda' and basis.shape == (nb, d):
+                        # the rows are the documented local LDA directions (compared as projectors: a direction has no sign)
+                        from mc.refmodel import lda_basis
+                        Bref, ambig = lda_basis.reference(ds.X, ds.y, int(nb), seed)
+                        if ambig:
+                            amb_lda += 1
+                        else:
+                            dev = max(np.abs(np.outer(b, b) - np.outer(r, r)).max() for b, r in zip(basis, Bref))
+                            worst_lda = max(worst_lda, dev / 1e-7)
+                            if dev > 1e-7:
+                                viol.append(V(name + '.fit', 'lda_basis_not_documented', "basis='lda', n_basis=%d, random_state=%d: a generated row differs "
+                                              'from the unit LDA direction of the documented local sample (projector deviation %.3g)' % (nb, seed, dev),
+                                              ['lda', 'n_basis=%d' % nb]))
                     sigs.add((name, dsn, basis_opt, nb, seed))
-        return dict(evals=evals, sigs=sigs, viol=viol, states=states, transitions=trans,
+        return dict(evals=evals, sigs=sigs, viol=viol, states=states, transitions=trans, ambiguous=amb_lda,
+                    headroom={'lda_basis_projector_deviation': worst_lda},
                     sample={'kind': 'generated bases', 'dataset': dsn, 'n_basis sweep': 'd .. 5d (triplet_diffs), 2 .. 3d+1 (lda)'})
     if spec[0] == 'intpts':
         # integer-typed points (int64 triplets / int64 X) with a REAL-valued basis: same M as for the float-typed copy
